@@ -182,6 +182,7 @@ func c16RawExec(c *core.Ctx, in c16Raw) {
 	pco := nasConvert.NewProtocolConfigurationOptions()
 	var err error
 	guardReset()
+	c.SetSub("pco-raw", func() any { return in })
 	cp := guardIn(data)
 	pi := core.Try(func() { err = pco.UnMarshal(cp) })
 	fail := func(k, w string) { c.FailCase("pco|"+k, w, "pco-raw", in) }
@@ -449,6 +450,36 @@ func c16Run(c *core.Ctx) {
 			n++
 		}
 	}
+	// named identifiers: every ordered pair of units whose identifiers are container / protocol identifiers the library
+	// knows by name (read from the current source) or one of five others, first unit with 0, 1 or 2 octets of contents,
+	// second with 0, 2 or 3 — alone and behind a leading unit (an identifier-specific branch in the parser is reached only
+	// with that identifier, and shows only in what follows it)
+	{
+		idset := namedUint16Constants("nasMessage/NAS_CommInfoIE.go")
+		idset = append(idset, 0x0105, 0x8021, 0xC021, 0xC223, 0xFFFF)
+		for i1, id1 := range idset {
+			if !c.Mine(i1) {
+				continue
+			}
+			if !c.Begin("pco-named", "ProtocolConfigurationOptions", map[string]any{"first_id": id1}) {
+				continue
+			}
+			for _, l1 := range []int{0, 1, 2} {
+				for _, id2 := range idset {
+					for _, l2 := range []int{0, 2, 3} {
+						a, b := c16Unit{ID: id1, Len: l1, Pat: 1}, c16Unit{ID: id2, Len: l2}
+						c16ListExec(c, c16List{Units: []c16Unit{a, b}})
+						n++
+						if l2 == 2 {
+							c16ListExec(c, c16List{Units: []c16Unit{{ID: 0x000D, Len: 0}, a, b}})
+							n++
+						}
+					}
+				}
+			}
+			c.Tick()
+		}
+	}
 	// histories: every truncation and a 6-value replacement at every position of a valid encoding, the refused
 	// constructor calls and a serialisation of another list — alone and in ordered pairs with the refused calls — each
 	// followed by three probe lists
@@ -509,7 +540,7 @@ func init() {
 		ID: "C16", Level: "exploration", Run: c16Run,
 		Shards: func(string) int { return 16 },
 		Rule: func(tier string) string {
-			return "PCO lists of 0..3 (4 thorough) units over 5 identifiers x 6 content lengths (first two positions complete, deeper positions on a stride), every content length 0..255 of one unit, the Add… constructors; UnMarshal on every byte string of length <= 6 (8 thorough) over {00,01,02,03,80,FF} and the <=2-mutation neighbourhood of a valid encoding; all 65 536 PDU session bitmaps in both directions. Oracle: serialisation = 0x80 then id/length/contents per unit; parse(serialise(l)) = l; for arbitrary bytes no panic and every parsed unit is literally in the input at the offset a straightforward reader computes; bitmap bit i <-> bit (i mod 8) of octet (i div 8). Histories: every truncation and a 6-value replacement at every position of a valid encoding through UnMarshal, the constructor calls that are refused (IPv6 address as IPv4, 3- and 5-octet addresses) and a serialisation of another list — alone and in ordered pairs — each followed by three probe lists judged like a fresh round trip. Parser and bitmap inputs are handed over inside a guarded buffer (sub-slice with spare capacity and canaries) that must be unchanged afterwards."
+			return "PCO lists of 0..3 (4 thorough) units over 5 identifiers x 6 content lengths (first two positions complete, deeper positions on a stride), every content length 0..255 of one unit, the Add… constructors; UnMarshal on every byte string of length <= 6 (8 thorough) over {00,01,02,03,80,FF} and the <=2-mutation neighbourhood of a valid encoding; all 65 536 PDU session bitmaps in both directions. Oracle: serialisation = 0x80 then id/length/contents per unit; parse(serialise(l)) = l; for arbitrary bytes no panic and every parsed unit is literally in the input at the offset a straightforward reader computes; bitmap bit i <-> bit (i mod 8) of octet (i div 8). Named identifiers: every ordered pair of units over all container / protocol identifiers the library knows by name (read from the current source) plus five others, contents of 0..2 resp. 0, 2, 3 octets, alone and behind a leading unit. Histories: every truncation and a 6-value replacement at every position of a valid encoding through UnMarshal, the constructor calls that are refused (IPv6 address as IPv4, 3- and 5-octet addresses) and a serialisation of another list — alone and in ordered pairs — each followed by three probe lists judged like a fresh round trip. Parser and bitmap inputs are handed over inside a guarded buffer (sub-slice with spare capacity and canaries) that must be unchanged afterwards."
 		},
 		Assumptions: []string{"a trailing unit without a complete header may be dropped silently by the parser (the property only forbids invented contents and panics)"},
 		Finish:      finishDistinct("distinct by unit list / input octets / bitmap; non-trivial = lists with at least one unit, raw inputs that reach a container header (>= 4 octets), bitmaps other than all-clear and all-set"),
